@@ -185,6 +185,7 @@ def gen_workload(tape):
     # the index travels: queried through a pickle round trip (as a process
     # pool would ship it) or a deep copy instead of the original object
     w["travel"] = tape.pick([None, None, None, "pickle", "deepcopy"], "travel")
+    w["other_metric_first"] = tape.flag("other_metric_first", 1, 4)
     # two caller threads share the index: each takes every second query
     w["two_callers"] = tape.flag("two_callers", 1, 6)
     w["line_stride"] = 5 + tape.choice(30, "linestride") if w["two_callers"] else 0
@@ -466,6 +467,15 @@ def run_one(tape, only=None):
             except Exception:  # noqa: not the object under test
                 plan.take_fired()
 
+        if w.get("other_metric_first"):
+            # an index with the *other* metric was built earlier in the process
+            probe("index_with_the_other_metric_built_first")
+            try:
+                GeoIndex(np.array([10.0, 11.0, 12.5]), np.array([20.0, 21.0, 19.0]),
+                         metric="haversine" if metric == "minkowski" else "minkowski")
+            except Exception:  # noqa: not the object under test
+                plan.take_fired()
+            used_perm.clear()
         if w["two_callers"] and w["shuffle"] and not w["alloc_fault"]:
             # another thread builds an index of its own at the same time: both
             # draw from the one global random stream
@@ -520,6 +530,11 @@ def run_one(tape, only=None):
                 rf = float(r)
                 spell = {"number": rf, "km": f"{rf!r} km", "m": f"{rf * 1000.0!r} m",
                          "miles": f"{rf / 1.609344!r} miles"}[q["unit"]]
+                if q["unit"] == "number" and q.get("spelling") and rf == float(int(rf)) \
+                        and 0 < rf < 32000:
+                    # a whole number of kilometres as a numpy scalar of a small type
+                    spell = [np.int16, np.uint16, np.float32][q["spelling"] % 3](rf)
+                    probe("radius_is_a_small_numpy_scalar")
                 if isinstance(spell, str) and q.get("spelling"):
                     # other legal spellings of the same number
                     num, unit = spell.split(" ")
